@@ -86,7 +86,7 @@ func CheckC01(run *evid.Run) {
 	nh := pick(run.Tier, 600, 6000)
 	twins := pick(run.Tier, 4, 8)
 	maxSteps := pick(run.Tier, 40, 80)
-	run.Rule = "seeded histories (8 shapes: mixed, widefork, diamond, lopsided, ring, repeat, twins, overlap) over 2-6 replicas and 1-4 writers (every 3rd history shares writers), default and hash-tiebreak orderings; each history executed as T replay twins whose exchange is completed in a different way (random pairs to fixpoint, star, chain, reverse chain, via temporary log, every merge twice, ring rounds, partial merges interleaved with appends); a history is non-trivial iff it reached a state with >=2 heads and had a merge that added entries; distinct = canonical digest of the final DAG shape"
+	run.Rule = "seeded histories (9 shapes: mixed, widefork, diamond, lopsided, ring, repeat, twins, overlap, manyheads) over 2-17 replicas and 1-4 writers (every 3rd history shares writers), default, hash-tiebreak and reverse-hash orderings; every other history also contains REFUSED operations as ordinary steps (appends denied by the replica's access controller, merges of a copy of a replica carrying one denied or mis-signed entry on top of 0-2 valid ones) and FORKS (NewLog from another replica's entries and heads), followed by normal traffic; each history executed as T replay twins whose exchange is completed in a different way (random pairs to fixpoint, star, chain, reverse chain, via temporary log, every merge twice, ring rounds, partial merges interleaved with appends); a history is non-trivial iff it reached a state with >=2 heads and had a merge that added entries; distinct = canonical digest of the final DAG shape"
 	run.Assumptions = []string{"entry hashes are reproducible for equal (seed, history) so replay twins are comparable hash by hash", "the harness block store behaves like a correct IPFS DAG service"}
 	opts := hx.GenOpts{MaxSteps: maxSteps, Orders: []string{"default", "hash", "hash", "revhash"}}
 	parallel(nh, func(i int) {
@@ -344,7 +344,7 @@ func c01Twin(run *evid.Run, h *hx.History, twin int, table map[string]*stateFn, 
 
 func CheckC02(run *evid.Run) {
 	nh := pick(run.Tier, 3000, 40000)
-	run.Rule = "every prefix state of seeded histories (8 shapes incl. 'overlap': merges of already-merged logs, into ancestors/descendants, partially overlapping forks, three-way merges where one side's head is interior on the other); after each step heads are recomputed by the model from GetEntries(); non-trivial iff the history reached a state with >=2 heads and a merge added entries; distinct = final DAG shape digest"
+	run.Rule = "every prefix state of seeded histories (9 shapes, every other one with refused operations and forks as in C01; incl. 'overlap': merges of already-merged logs, into ancestors/descendants, partially overlapping forks, three-way merges where one side's head is interior on the other); after each step heads are recomputed by the model from GetEntries(); non-trivial iff the history reached a state with >=2 heads and a merge added entries; distinct = final DAG shape digest"
 	opts := hx.GenOpts{MaxSteps: pick(run.Tier, 40, 80), Orders: []string{"default", "hash"}}
 	parallel(nh, func(i int) {
 		o2 := opts
@@ -473,7 +473,7 @@ func toStringPayloads(l *ipfslog.IPFSLog) []string {
 func CheckC03(run *evid.Run) {
 	nh := pick(run.Tier, 1500, 20000)
 	nshape := pick(run.Tier, 240, 3000)
-	run.Rule = "every prefix state of seeded histories under three orderings (default when (clock id,time) pairs are distinct, hash-tiebreak, harness-supplied reverse-hash tiebreak), plus shape-directed DAGs (width-k forks joined by one entry, ladders of diamonds, combs, many heads at equal clock time); values checked for duplicates, completeness, causal order, strict ascent and equality with the model linearisation, on Values(), ToSnapshot().Values and ToString; states whose ordering is not a strict total order are counted and skipped; non-trivial iff >=2 heads seen and a merge added entries; distinct = final DAG shape digest"
+	run.Rule = "every prefix state of seeded histories (every other one with refused operations and forks) under three orderings (default when (clock id,time) pairs are distinct, hash-tiebreak, harness-supplied reverse-hash tiebreak), plus shape-directed DAGs (width-k forks joined by one entry, ladders of diamonds, combs, many heads at equal clock time); values checked for duplicates, completeness, causal order, strict ascent and equality with the model linearisation, on Values(), ToSnapshot().Values and ToString; states whose ordering is not a strict total order are counted and skipped; non-trivial iff >=2 heads seen and a merge added entries; distinct = final DAG shape digest"
 	opts := hx.GenOpts{MaxSteps: pick(run.Tier, 40, 80), Orders: []string{"default", "hash", "revhash"}}
 	parallel(nh+nshape, func(i int) {
 		var h *hx.History
